@@ -294,11 +294,15 @@ func (m *obsMetrics) IncTransitions(l prometheus.Labels) {
 		}
 	}
 }
-func (m *obsMetrics) IncFailures(prometheus.Labels)                             {}
-func (m *obsMetrics) IncAcquireAttempts(prometheus.Labels)                      {}
-func (m *obsMetrics) IncTokenValidationFailures(prometheus.Labels)              {}
-func (m *obsMetrics) ObserveHeartbeatDuration(time.Duration, prometheus.Labels) {}
-func (m *obsMetrics) ObserveLeaderDuration(time.Duration, prometheus.Labels)    {}
+func (m *obsMetrics) IncFailures(prometheus.Labels)                { m.o.appYield("app.metrics") }
+func (m *obsMetrics) IncAcquireAttempts(prometheus.Labels)         { m.o.appYield("app.metrics") }
+func (m *obsMetrics) IncTokenValidationFailures(prometheus.Labels) { m.o.appYield("app.metrics") }
+func (m *obsMetrics) ObserveHeartbeatDuration(time.Duration, prometheus.Labels) {
+	m.o.appYield("app.metrics")
+}
+func (m *obsMetrics) ObserveLeaderDuration(time.Duration, prometheus.Labels) {
+	m.o.appYield("app.metrics")
+}
 
 type obsLogger struct{ o *elObj }
 
@@ -323,7 +327,19 @@ func (l *obsLogger) rec(msg string, fields []zap.Field) {
 		o.in.watchOKAt = d.now()
 	}
 	d.mu.Unlock()
+	o.appYield("app.logger")
 }
+// appYield: the application's plug-ins (Logger, Metrics) take time like any other code: every
+// call is a yield site ("app.logger" / "app.metrics"), so a goroutine can be held up inside one -
+// outside critical sections in every plan, inside them in the plans that park goroutines there.
+func (o *elObj) appYield(site string) {
+	d := o.in.d
+	if d.free || inObserver.Load() > 0 {
+		return
+	}
+	d.yield(o.in.cfg.ID, site)
+}
+
 func (l *obsLogger) Debug(msg string, f ...zap.Field) { l.rec(msg, f) }
 func (l *obsLogger) Info(msg string, f ...zap.Field)  { l.rec(msg, f) }
 func (l *obsLogger) Warn(msg string, f ...zap.Field)  { l.rec(msg, f) }
